@@ -26,6 +26,14 @@ Conventions
 * `mstring` names: a case is entirely narrow or entirely wide, so a name is the
   list of its characters in that representation and no conversion happens;
   `[]` is "no name" (`archive_mstring_clean`).
+* `type`, `tag`, `permset`, `flags`, `want_type` are the non-negative values of a
+  C `int` (`Nat`); `id` is an `Int` with the C range stated where it matters.
+
+The model follows archive_acl.c *with* the repairs made while it was written
+(libarchive commits "fix: …" bcbe7ef end-of-buffer reads in the narrow parser,
+fb8928a NULL tag field in the wide parser, e1bc06b id field in `text_len`,
+871276b `ismode` partial permset, 493cdb1 single entry types in `acl_new_entry`);
+each old behaviour is kept as a regression case in corpus/C15.
 -/
 import LA.Model.Util
 import LA.Gen.AclMaps
